@@ -191,6 +191,24 @@ theorem clock_times_antialigned {P : Prog} {S : ProcSem π} (hwf : WF P) (hS : S
 theorem pin_frequency_is_clock_frequency (cs : ClockTree) (i : Nat) : cs.absFreq (cs.clockPinSource i) = cs.absFreq i :=
   pinSource_freq cs i
 
+/-- derived clocks: what `deriveClock(cfg)` leaves unset is the parent's — in particular a derived clock without an explicit trigger
+    event has the parent's active edge(s): it activates on exactly the edges of the shared or own pin on which the parent does;
+    what the configuration sets is taken from the configuration. (The driver recomputes every derived clock of every generated tree
+    with `deriveDecl` from the parent's reported attributes and the configuration the harness passed, `kind=derived-clock-attribute`.) -/
+theorem derived_clock_inherits (pi : Nat) (parent : ClockDecl) (mul : Rat) (cfg : ClockCfg) :
+    let d := deriveDecl pi parent mul cfg
+    (cfg.trig = none → ∀ risingEdge, d.trig.activates risingEdge = parent.trig.activates risingEdge) ∧
+    (∀ t, cfg.trig = some t → d.trig = t) ∧
+    (cfg.rstType = none → d.rstType = parent.rstType) ∧ (∀ t, cfg.rstType = some t → d.rstType = t) ∧
+    (cfg.activeHigh = none → d.activeHigh = parent.activeHigh) ∧ (∀ t, cfg.activeHigh = some t → d.activeHigh = t) ∧
+    (cfg.name = none → d.name = parent.name) ∧ (cfg.resetName = none → d.resetName = parent.resetName) ∧
+    (cfg.phaseSync = none → d.phaseSync = parent.phaseSync) ∧ d.parent = some pi ∧ d.freqOrMul = mul := by
+  refine ⟨fun h r => ?_, fun t h => ?_, fun h => ?_, fun t h => ?_, fun h => ?_, fun t h => ?_, fun h => ?_, fun h => ?_, fun h => ?_, rfl, rfl⟩ <;>
+    simp [deriveDecl, h]
+
+example : (deriveDecl 0 { parent := none, freqOrMul := 100, name := "clk", resetName := "rst", trig := .falling, phaseSync := false,
+                          rstType := .sync, activeHigh := false, hasNodes := true } (1/2) { name := some "slow" }).trig = .falling := by decide
+
 /-! ### non-vacuity -/
 
 /-- a two-pin program: 3/2 Hz rising with synchronous active-high reset, 5/3 Hz dual-edge with asynchronous active-low reset;
